@@ -11,10 +11,12 @@ package main
 import (
 	"fmt"
 	"math"
+	"strconv"
 	"strings"
 
 	"github.com/LindsayBradford/crem/internal/pkg/annealing/solution"
 	solutioncsv "github.com/LindsayBradford/crem/internal/pkg/annealing/solution/encoding/csv"
+	"github.com/LindsayBradford/crem/internal/pkg/model/models/catchment/actions"
 	"github.com/LindsayBradford/crem/internal/pkg/model/planningunit"
 	"github.com/LindsayBradford/crem/internal/pkg/model/variable"
 )
@@ -165,8 +167,89 @@ func (w *walker) encodeables(after string) {
 	}
 	w.c.Stat(w.tag + " enc (solution figures)")
 	line := "enc"
+	ids := ""
 	for _, p := range sol.PlanningUnits {
-		line += fmt.Sprintf(" %d", p)
+		ids += fmt.Sprintf(" %d", p)
 	}
-	w.op(line, strings.Join(parts, " | "))
+	w.op(line+ids, strings.Join(parts, " | "))
+	w.managementActionsFile(after, sol, ids)
+}
+
+var actionTypeNames = map[string]int{
+	string(actions.GullyRestorationType): 0, string(actions.HillSlopeRestorationType): 1,
+	string(actions.RiverBankRestorationType): 2, string(actions.WetlandsEstablishmentType): 3,
+}
+
+// managementActionsFile: the solution's management-actions file, written by crem's own marshaler and read back cell by cell:
+// one row per planning unit of the solution, a 0/1 cell per action type.  Direct clauses: a cell is 1 exactly when the model
+// has an ACTIVE action of that type in that unit; every action of the model has its column and its row.
+func (w *walker) managementActionsFile(after string, sol *solution.Solution, ids string) {
+	cm := w.cm
+	var text []byte
+	if p := protect(func() {
+		var err error
+		text, err = new(solutioncsv.ManagementActionMarshaler).Marshal(sol)
+		if err != nil {
+			panic(err)
+		}
+	}); p != "" {
+		w.op("mact"+ids, "panic")
+		w.fail("no-panic", "catchment:management-actions-marshaler-panic", fmt.Sprintf("after %s: %s", after, p))
+		return
+	}
+	lines := strings.Split(strings.TrimRight(string(text), "\n"), "\n")
+	head := strings.Split(lines[0], ", ")
+	var sb strings.Builder
+	sb.WriteString("H")
+	cols := []int{}
+	for _, h := range head[1:] {
+		ti, ok := actionTypeNames[strings.TrimSpace(h)]
+		if !ok {
+			ti = -1
+		}
+		cols = append(cols, ti)
+		fmt.Fprintf(&sb, " %d", ti)
+	}
+	sb.WriteString(" |")
+	type key struct {
+		p planningunit.Id
+		t int
+	}
+	active, offered := map[key]bool{}, map[key]bool{}
+	for _, a := range cm.m.ManagementActions() {
+		k := key{a.PlanningUnit(), typeIdx(a.Type())}
+		offered[k] = true
+		if a.IsActive() {
+			active[k] = true
+		}
+	}
+	seen := map[key]bool{}
+	for _, l := range lines[1:] {
+		cells := strings.Split(l, ", ")
+		if len(cells) != len(head) {
+			w.fail("C11:written-figures", "catchment:management-actions-row-malformed", fmt.Sprintf("after %s: row %q has %d cells under %d headings", after, l, len(cells), len(head)))
+			continue
+		}
+		pu, err := strconv.ParseUint(strings.TrimSpace(cells[0]), 10, 64)
+		if err != nil {
+			continue
+		}
+		fmt.Fprintf(&sb, " %d:", pu)
+		for ci, c := range cells[1:] {
+			c = strings.TrimSpace(c)
+			sb.WriteString(c)
+			k := key{planningunit.Id(pu), cols[ci]}
+			seen[k] = true
+			if (c == "1") != active[k] {
+				w.fail("C12:management-actions-file-faithful", "catchment:management-actions-cell-wrong", fmt.Sprintf("after %s: unit %d, column %q: the file says %q, the model's action of that unit and type is active=%v (offered=%v; set %s)", after, pu, head[1+ci], c, active[k], offered[k], bitsStr(cm.flags())))
+			}
+		}
+	}
+	for k := range offered {
+		if !seen[k] {
+			w.fail("C12:management-actions-file-faithful", "catchment:management-actions-cell-missing", fmt.Sprintf("after %s: the model's action of unit %d, type %d has no cell in the file", after, k.p, k.t))
+			break
+		}
+	}
+	w.op("mact"+ids, sb.String())
 }
